@@ -16,7 +16,9 @@ OMEGA1 = {'single': ['SingleSite', {}], 'gauss6': ['Gaussian', {'sigma': 1.0, 'l
           'fjc5': ['FJC', {'length': 5, 'l': 1.0}], 'ring6': ['GaussianRing', {'sigma': 1.0, 'length': 6}]}
 DOMAINS = {'128x0.1': {'length': 128, 'dr': 0.1}, '96x0.1': {'length': 96, 'dr': 0.1}, '256x0.05': {'length': 256, 'dr': 0.05},
            # constructed from the Fourier spacing (dr follows): a different code path of Domain
-           '128xdk0.25': {'length': 128, 'dk': 0.25}, '96xdk0.3': {'length': 96, 'dk': 0.3}}
+           '128xdk0.25': {'length': 128, 'dk': 0.25}, '96xdk0.3': {'length': 96, 'dk': 0.3},
+           # lengths with a large prime factor (2*59, prime 127): nothing in the solve may depend on the factorisation of the length
+           '118x0.1': {'length': 118, 'dr': 0.1}, '127xdk0.2': {'length': 127, 'dk': 0.2}}
 
 
 def kind_pair(kind, omega):
